@@ -228,3 +228,30 @@ Proof.
     destruct (d_names s q) as [j0|] eqn:E0; [|discriminate]. cbn [option_map]. f_equal. apply (Hc q j0 Hq E0). }
   rewrite Cp, Cq. reflexivity.
 Qed.
+
+(* ---------- the re-link as system calls: old or new at every kill point ---------- *)
+Theorem relink_prog_old_or_new k q i s j :
+  r_names s q = Some j ->
+  (r_names (rprefix k (relink_prog q i) s) q = Some j \/ r_names (rprefix k (relink_prog q i) s) q = Some i) /\
+  (forall p, p <> q -> r_names (rprefix k (relink_prog q i) s) p = r_names s p).
+Proof.
+  intro Hq. unfold rprefix, relink_prog.
+  destruct k as [|[|k]]; cbn [firstn fold_left rstep_apply r_names r_tmp].
+  - split; [left; exact Hq | reflexivity].
+  - split; [left; exact Hq | reflexivity].
+  - rewrite firstn_nil. cbn [fold_left r_names]. rewrite N.eqb_refl. split; [right; reflexivity|].
+    intros p Hp. destruct (N.eqb p q) eqn:E; [apply N.eqb_eq in E; congruence | reflexivity].
+Qed.
+
+(* the completed program is link_to *)
+Theorem relink_prog_is_link_to q i s (ds : dstate) :
+  r_tmp s = None -> (forall p, r_names s p = d_names ds p) ->
+  forall p, r_names (rprefix 2 (relink_prog q i) s) p = d_names (link_to ds q i) p.
+Proof.
+  intros _ Hn p. unfold rprefix, relink_prog. cbn [firstn fold_left rstep_apply r_names r_tmp link_to d_names].
+  destruct (N.eqb p q); [reflexivity | apply Hn].
+Qed.
+
+(* unlink first, then link: killed between the two calls the name does not exist *)
+Theorem relink_unlink_first_refuted q i s : r_names (rprefix 1 (relink_prog_unlink_first q i) s) q = None.
+Proof. unfold rprefix, relink_prog_unlink_first. cbn [firstn fold_left rstep_apply r_names]. rewrite N.eqb_refl. reflexivity. Qed.
